@@ -550,13 +550,59 @@ impl<'tcx> Dumper<'tcx> {
             }
             Const::Unevaluated(uv, _) => {
                 let has_params = format!("{:?}", uv.args).contains("/#");
-                if uv.promoted.is_none() && !has_params {
+                if !has_params || uv.promoted.is_some() {
                     c.const_.eval(tcx, typing_env, c.span).ok()
                 } else {
                     None
                 }
             }
         };
+        // `&CONST` promoted to a static: follow the pointer and read the integer it points to
+        if let (Some(ConstValue::Scalar(rustc_middle::mir::interpret::Scalar::Ptr(ptr, _))), ty::Ref(_, inner, _)) = (evaluated, ty.kind()) {
+            let mut int_ty: Option<Ty<'tcx>> = None;
+            match inner.kind() {
+                ty::Int(_) | ty::Uint(_) | ty::Bool | ty::Char => int_ty = Some(*inner),
+                ty::Adt(adt, args) if adt.is_struct() => {
+                    let v0 = adt.non_enum_variant();
+                    if v0.fields.len() == 1 {
+                        let fty = v0.fields[rustc_abi::FieldIdx::from_usize(0)].ty(tcx, args);
+                        if matches!(fty.kind(), ty::Int(_) | ty::Uint(_) | ty::Bool | ty::Char) {
+                            int_ty = Some(fty);
+                        }
+                    }
+                }
+                _ => {}
+            }
+            if let Some(ity) = int_ty {
+                let (prov, off) = ptr.into_raw_parts();
+                if let rustc_middle::mir::interpret::GlobalAlloc::Memory(m) = tcx.global_alloc(prov.alloc_id()) {
+                    let a = m.inner();
+                    let size = match ity.kind() {
+                        ty::Int(i) => i.bit_width().unwrap_or(64) / 8,
+                        ty::Uint(u) => u.bit_width().unwrap_or(64) / 8,
+                        ty::Bool => 1,
+                        ty::Char => 4,
+                        _ => 0,
+                    } as usize;
+                    let o = off.bytes() as usize;
+                    if size > 0 && o + size <= a.len() {
+                        let bytes = a.inspect_with_uninit_and_ptr_outside_interpreter(o..o + size);
+                        let mut v: u128 = 0;
+                        for (i, b) in bytes.iter().enumerate() {
+                            v |= (*b as u128) << (8 * i);
+                        }
+                        let sv = match ity.kind() {
+                            ty::Int(_) => {
+                                let shift = 128 - (size as u32) * 8;
+                                format!("{}", ((v as i128) << shift) >> shift)
+                            }
+                            _ => format!("{}", v),
+                        };
+                        val = Some(sv);
+                    }
+                }
+            }
+        }
         if let Some(v) = evaluated {
             if let Some(si) = v.try_to_scalar_int() {
                 if is_scalar_ty {
